@@ -175,9 +175,16 @@ func c14Plans() []cmdPlan {
 		n = append(n, neighbour{"secondary-input", "feature table content changed", file(b, "feat.tbl", "feat2.tbl")})
 		plans = append(plans, cmdPlan{"annotate", b, n, []string{"format"}})
 	}
-	for _, name := range []string{"clear", "complement", "repair", "reverse"} {
+	for _, name := range []string{"clear", "complement", "reverse"} {
 		b := mk(name)
 		plans = append(plans, cmdPlan{name, b, fmtN(b), []string{"format"}})
+	}
+	{
+		// gts repair panics on the phiX174 table (known C12 finding), so its base
+		// input is a record it can process: otherwise no entry is ever created.
+		b := stdin(mk("repair"), "pbat5.gb")
+		n := []neighbour{{"format", "-F fasta", with(b, "-F", "fasta")}, {"format", "-F genbank", with(b, "-F", "genbank")}, {"primary-input", "other input", stdin(b, "phix_part.gb")}}
+		plans = append(plans, cmdPlan{"repair", b, n, []string{"format"}})
 	}
 	{
 		b := mk("define", "misc_feature", "3..20")
